@@ -325,6 +325,57 @@ def check_caret(ctx):
             ctx.disagree("^R literal (non-ASCII letter)", src, a, r.summary())
 
 
+def context_stream(ctx):
+    """the same directive evaluated more than once or later: inside '.repeat' blocks, with <n> codes that are symbols
+    defined further down, several directives in a row sharing spellings"""
+    rng = ctx.rng("contexts")
+    pool = ["AB", "A", "EMPTY", "DK", "SWP", "X1$", "", "Z.9", "  Q"]
+    for it in range(1500 if ctx.thorough else 400):
+        nch = rng.randint(1, 4)
+        case, syms = [], []
+        for _ in range(nch):
+            if rng.random() < 0.55:
+                case.append(("s", rng.choice(pool)))
+            else:
+                case.append(("c", rng.randrange(0, 40)))
+        ex = expect(case)
+        if ex[0] != "ok" or not any(v != "" for k, v in case if k == "s") and not any(k == "c" for k, _ in case):
+            continue
+        codes = ex[1]
+        words = [codes[i] * 1600 + codes[i + 1] * 40 + codes[i + 2] for i in range(0, len(codes), 3)]
+        # render: some codes through symbols defined at the end
+        parts, defs = [], []
+        for kind, v in case:
+            if kind == "s":
+                parts.append(quote_str(v))
+            elif rng.random() < 0.5:
+                nm = "c%d_%d" % (it, len(defs))
+                defs.append("%s = %d." % (nm, v))
+                parts.append("<%s>" % nm)
+            else:
+                parts.append("<%d.>" % v)
+        line = ".rad50 " + " ".join(parts)
+        n = rng.choice([1, 2, 2, 3, 4])
+        between = rng.choice(["", ".word 0\n"])
+        if n == 1:
+            text = line + "\n" + between
+            want = list(words) + ([0] if between else [])
+        else:
+            text = ".repeat %d {\n%s\n%s}\n" % (n, line, between)
+            want = (list(words) + ([0] if between else [])) * n
+        src = ".link 1000\n" + text + ".rad50 /END/\n" + "\n".join(defs) + "\n"
+        want += [5 * 1600 + 14 * 40 + 4]
+        r = impl.asm1(src)
+        ctx.case(("context", src), nontrivial=True)
+        ctx.count("rad50 in context")
+        ctx.count("rad50 in a repeat block", n > 1)
+        ctx.count("rad50 with codes defined later", bool(defs))
+        got = [r.code[i] | (r.code[i + 1] << 8) for i in range(0, len(r.code) - 1, 2)] if r.outcome == "ok" else None
+        if got != want:
+            ctx.violation("'.rad50' evaluated again (a '.repeat' pass, a code known only later) does not give the packed text again",
+                          {"source": src}, expected=want, observed=got if got is not None else r.summary())
+
+
 def run(ctx):
     ctx.rule = ("'.rad50' operands (1-3 chunks of quoted strings and <n> codes) and '^R' literals, assembled by the real code; "
                 "distinct = distinct operand lists; non-trivial = at least one character or code. quick: every alphabet character in "
@@ -334,6 +385,7 @@ def run(ctx):
     check_cases(ctx, cases, "main")
     check_decodes(ctx)
     check_caret(ctx)
+    context_stream(ctx)
     ctx.assumptions = ["U+0131 and U+017F upper-case to I and S (Unicode case folding): the oracle accepts either outcome for them"]
 
 
